@@ -1,4 +1,5 @@
 import GnoVerif.Proofs.C18Arith
+import GnoVerif.Proofs.C18Cmp2
 /-!
 # C18 — coin-set arithmetic matches the multiset model
 
@@ -212,5 +213,89 @@ theorem sub_minint64_counterexample : ¬ sub_statement := by
     split at hd0
     · next e => subst e; decide
     · exact absurd rfl hd0
+
+/-! ## comparison helpers = per-denomination comparison (on valid sets) -/
+
+/-- `AmountOf` on a strictly sorted set: the denoted amount for a well-formed denom, the
+`mustValidateDenom` panic otherwise. -/
+theorem amountOf_spec (cs : Coins) (d : Denom) (hs : Sorted cs) :
+    (DenomOK d → ∃ v, amountOf cs d = .ok v ∧ v.toInt = val cs d) ∧
+    (¬ DenomOK d → amountOf cs d = .error .denom) :=
+  ⟨fun hd => ⟨_, amountOf_ok hd, amountOfGo_spec cs d hs⟩, fun hd => amountOf_bad hd⟩
+
+example : Sorted [⟨dA, 5#64⟩, ⟨dB, 0#64⟩, ⟨dC, minAmt⟩] ∧ DenomOK dB := by decide
+
+/-- `IsAllGT`: `A` is non-empty and strictly exceeds `B` on every denomination of `B`. -/
+theorem isAllGT_spec (A B : Coins) (hA : Valid A) (hB : Valid B) :
+    ∃ r, isAllGT A B = .ok r ∧ (r = true ↔ A ≠ [] ∧ ∀ d, val B d ≠ 0 → val B d < val A d) :=
+  isAllGT_valid hA hB
+
+/-- `IsAllGTE`: `B ≤ A` pointwise. -/
+theorem isAllGTE_spec (A B : Coins) (hA : Valid A) (hB : Valid B) :
+    ∃ r, isAllGTE A B = .ok r ∧ (r = true ↔ ∀ d, val B d ≤ val A d) :=
+  isAllGTE_valid hA hB
+
+/-- `IsAllLT` = `IsAllGT` with the operands swapped. -/
+theorem isAllLT_spec (A B : Coins) (hA : Valid A) (hB : Valid B) :
+    ∃ r, isAllLT A B = .ok r ∧ (r = true ↔ B ≠ [] ∧ ∀ d, val A d ≠ 0 → val A d < val B d) :=
+  isAllGT_valid hB hA
+
+/-- `IsAllLTE`: `A ≤ B` pointwise. -/
+theorem isAllLTE_spec (A B : Coins) (hA : Valid A) (hB : Valid B) :
+    ∃ r, isAllLTE A B = .ok r ∧ (r = true ↔ ∀ d, val A d ≤ val B d) :=
+  isAllGTE_valid hB hA
+
+/-- `IsAnyGT`: some denomination present in both sets has a strictly greater amount in `A`. -/
+theorem isAnyGT_spec (A B : Coins) (hA : Valid A) (hB : Valid B) :
+    ∃ r, isAnyGT A B = .ok r ∧ (r = true ↔ ∃ d, val A d ≠ 0 ∧ val B d ≠ 0 ∧ val B d < val A d) := by
+  simpa [isAnyGT] using isAny_valid true hA hB
+
+/-- `IsAnyGTE`: some denomination present in both sets has a greater-or-equal amount in `A`. -/
+theorem isAnyGTE_spec (A B : Coins) (hA : Valid A) (hB : Valid B) :
+    ∃ r, isAnyGTE A B = .ok r ∧ (r = true ↔ ∃ d, val A d ≠ 0 ∧ val B d ≠ 0 ∧ val B d ≤ val A d) := by
+  simpa [isAnyGTE] using isAny_valid false hA hB
+
+/-- `DenomsSubsetOf`: the support of `A` is contained in the support of `B`. -/
+theorem denomsSubsetOf_spec (A B : Coins) (hA : Valid A) (hB : Valid B) :
+    ∃ r, denomsSubsetOf A B = .ok r ∧ (r = true ↔ ∀ d, val A d ≠ 0 → val B d ≠ 0) :=
+  denomsSubsetOf_valid hA hB
+
+example : Valid [⟨dA, 5#64⟩, ⟨dB, maxAmt⟩] ∧ Valid [⟨dB, 1#64⟩] := by decide
+
+/-- The property statement for `IsEqual`. False: see the counter-example. -/
+def isEqual_statement : Prop :=
+  ∀ A B : Coins, Valid A → Valid B →
+    ∃ r, isEqual A B = .ok r ∧ (r = true ↔ ∀ d, val A d = val B d)
+
+/-- KNOWN FINDING `isequal-panic`: on the valid sets `{aaa:1}` and `{bbb:1}` `IsEqual` panics
+("invalid coin denominations") instead of returning false. -/
+theorem isEqual_counterexample : ¬ isEqual_statement := by
+  intro hst
+  obtain ⟨r, hr, _⟩ := hst [⟨dA, 1#64⟩] [⟨dB, 1#64⟩] (by decide) (by decide)
+  have : isEqual [⟨dA, 1#64⟩] [⟨dB, 1#64⟩] = .error .denoms := by rfl
+  rw [this] at hr
+  cases hr
+
+/-- Whenever `IsEqual` returns on valid sets, its answer is the per-denomination equality. -/
+theorem isEqual_sound_partial (A B : Coins) (hA : Valid A) (hB : Valid B) (r : Bool)
+    (h : isEqual A B = .ok r) : r = true ↔ ∀ d, val A d = val B d :=
+  isEqual_valid_sound hA hB r h
+
+/-- It returns (no panic) at least when the lengths differ or the denominations agree position by position
+— the exact complement is "equal length and a first differing position that differs in its denom". -/
+theorem isEqual_partial (A B : Coins) (hA : Valid A) (hB : Valid B)
+    (hg : A.length ≠ B.length ∨ A.map Coin.denom = B.map Coin.denom) :
+    ∃ r, isEqual A B = .ok r ∧ (r = true ↔ ∀ d, val A d = val B d) := by
+  obtain ⟨r, hr⟩ := isEqual_valid_total hA hB hg
+  exact ⟨r, hr, isEqual_valid_sound hA hB r hr⟩
+
+example : Valid [⟨dA, 5#64⟩, ⟨dB, 2#64⟩] ∧ Valid [⟨dA, 5#64⟩, ⟨dB, 3#64⟩] ∧
+    ([⟨dA, 5#64⟩, ⟨dB, 2#64⟩] : Coins).map Coin.denom = ([⟨dA, 5#64⟩, ⟨dB, 3#64⟩] : Coins).map Coin.denom := by
+  decide
+
+/-- `IsEqual` sorts its operands in place; on strictly sorted operands that leaves them unchanged. -/
+theorem isEqual_operands_unchanged (A B : Coins) (hA : Sorted A) (hB : Sorted B) :
+    (isEqualFull A B).2 = (A, B) :=
+  isEqualFull_operands hA hB
 
 end GnoVerif.C18
